@@ -255,6 +255,14 @@ func (in *Interp) assertCond(c *Term, label string) {
 	case "sat":
 		in.recordFailure("assert", label, "", m)
 		if c.isFalse() {
+			// false on every input of this path, so there is nothing to assume. When the failure is a recorded finding
+			// execution goes on, as the native twin's does: the checks behind a recorded finding are still made. Any
+			// other unconditional failure ends the path (it is reported anyway).
+			if in.eng.knownLabel != nil && in.eng.knownLabel(in.eng.curHarness, label) && ps.unconditionalKnown < 20 {
+				ps.unconditionalKnown++
+				ps.events = append(ps.events, Event{kind: "ASSERTFAIL", label: label})
+				return
+			}
 			panic(pathEnd{"failed", "assertion failed unconditionally: " + label})
 		}
 		// continue under the assumption that the assertion held
@@ -324,6 +332,8 @@ func (in *Interp) renderEvents(m Model) []string {
 		switch e.kind {
 		case "COVER":
 			out = append(out, "COVER "+e.label)
+		case "ASSERTFAIL":
+			out = append(out, "ASSERTFAIL "+e.label)
 		case "OBS":
 			out = append(out, "OBS "+e.label+" "+in.renderValue(e.val, e.typ, m))
 		}
